@@ -113,6 +113,7 @@ def run(ctx: Ctx):
                 "from the same parent, from elsewhere in the forest, was a BeautifulSoup object or was repeated")
     ctx.assumptions = ["calls that would put an element beneath itself are never generated (outside the quantifier)",
                        "negative positions are never generated (outside the modelled domain, see DESIGN.md C02)"]
+    parsed_documents(ctx)
     n_hist = ctx.n(300, 4000)
     steps = ctx.n(25, 40)
     lines, reals, cases, soupss, = [], [], [], []
@@ -134,9 +135,96 @@ def run(ctx: Ctx):
             break
 
 
+PARSE_TOKENS = ["<pre>", "</pre>", "<textarea>", "</textarea>", "<!---->", "<![CDATA[]]>", "<?>", "<!>", "<!-- -->", "<!--c-->", "x", " ", "\n",
+                "<a>", "</a>", "<b id=1>", "</b>", "<p>", "</p>", "<br>", "<br/>", "<script>", "</script>", "<i class='k'>", "</i>", "y z",
+                "&amp;", "<!DOCTYPE html>", "<rt>", "</rt>", "<a href=u>", "</z>"]
+
+
+def strainers():
+    """parse_only filters: elements the filter refuses are never to leave a trace in the links of the kept ones"""
+    import re
+    from bs4 import SoupStrainer
+    return [("none", None), ("name=a", lambda: SoupStrainer("a")), ("name=b", lambda: SoupStrainer("b")), ("name=[p,pre]", lambda: SoupStrainer(["p", "pre"])),
+            ("id=True", lambda: SoupStrainer(id=True)), ("class=k", lambda: SoupStrainer(class_="k")), ("href=re", lambda: SoupStrainer(href=re.compile("u"))),
+            ("string=True", lambda: SoupStrainer(string=True)), ("string=x", lambda: SoupStrainer(string="x")), ("name=nosuch", lambda: SoupStrainer("nosuch")),
+            ("a+id", lambda: SoupStrainer("b", id="1"))]
+
+
+def parse_doc(text, strainer_name):
+    import warnings
+    from bs4 import BeautifulSoup
+    mk = dict(strainers())[strainer_name]
+    with warnings.catch_warnings():
+        warnings.simplefilter("ignore")
+        return BeautifulSoup(text, "html.parser", **({"parse_only": mk()} if mk else {}))
+
+
+def parsed_documents(ctx: Ctx):
+    """'after parsing any document': the direct oracle on the objects html.parser + the tree constructor produce, with and without a
+    parse_only filter, on written documents, token soup, and soup rich in the nodes the parser can leave EMPTY (<!---->, <![CDATA[]]>,
+    <?>, <!> inside <pre>/<textarea>)"""
+    from . import c03, c04
+    names = [n for n, _ in strainers()]
+    for i in range(ctx.n(2500, 40000)):
+        r = ctx.rng("parsed-doc", i)
+        k = r.random()
+        if k < 0.3:
+            text = c04.write(r, c04.gen_tree(r), [], [0])
+        elif k < 0.5:
+            text = c04.gen_soup(r)
+        else:
+            text = "".join(r.choice(PARSE_TOKENS) for _ in range(r.randint(1, 16)))
+        sn = r.choice(names) if r.random() < 0.6 else "none"
+        case = {"text": text, "parse_only": sn}
+        try:
+            soup = parse_doc(text, sn)
+        except Exception as e:
+            from bs4.exceptions import ParserRejectedMarkup
+            if isinstance(e, ParserRejectedMarkup):
+                ctx.count("parsed-doc:rejected")
+                continue
+            ctx.violation(f"parsing raised {type(e).__name__}: {e}", case=case, stream="parsed-documents")
+            continue
+        w = c03.SoupWorld(soup)
+        msg = heapsim.oracle_c01(w)
+        nontrivial = len(w.objs) >= 4
+        ctx.case(("P", text, sn) if nontrivial else None)
+        ctx.count("parsed-doc:" + ("filtered" if sn != "none" else "unfiltered"))
+        if any(str(o) == "" and not hasattr(o, "contents") for o in w.objs.values()):
+            ctx.count("parsed-doc:with-empty-string-node")
+        if msg:
+            ctx.violation("the parsed document is not one consistent tree: " + msg, case=case, observed=msg, stream="parsed-documents")
+        # the iterators walk exactly the tree: a link to an object outside the children lists would show up here
+        inside = {id(o) for o in w.objs.values()}
+        for o in list(w.objs.values()):
+            for attr in ("next_element", "previous_element", "next_sibling", "previous_sibling", "parent"):
+                x = getattr(o, attr)
+                if x is not None and id(x) not in inside:
+                    ctx.violation(f"{w.label(o)}.{attr} points at an object that is in nobody's children list ({type(x).__name__} {str(x)[:30]!r})",
+                                  case=case, stream="parsed-documents")
+                    break
+            else:
+                continue
+            break
+
+
 def replay(path):
     v = json.load(open(path))
     c = v["case"]
+    if "text" in c and "parse_only" in c:
+        from . import c03
+        soup = parse_doc(c["text"], c["parse_only"])
+        w = c03.SoupWorld(soup)
+        msg = heapsim.oracle_c01(w)
+        inside = {id(o) for o in w.objs.values()}
+        if not msg:
+            for o in w.objs.values():
+                for attr in ("next_element", "previous_element", "next_sibling", "previous_sibling", "parent"):
+                    x = getattr(o, attr)
+                    if x is not None and id(x) not in inside:
+                        msg = f"{w.label(o)}.{attr} points at an object that is in nobody's children list"
+        print("document:", repr(c["text"]), "parse_only:", c["parse_only"]); print("C01 on the parsed objects:", msg or "holds")
+        return 1 if msg else 0
     if "kinds" not in c:
         print(json.dumps(v, indent=1)[:3000])
         return 1
